@@ -111,6 +111,10 @@ pub struct Spec {
     /// the one before; 0 = the real clock as it is
     #[serde(default)]
     pub wall_step_ms: u64,
+    /// where the run's generators live: slot 0..3 = offset 0 / 4 / 8 / 12 (modulo 16) of a 16-aligned heap
+    /// block; clones go to the next slot (see `gens::Placed`)
+    #[serde(default)]
+    pub place: u8,
 }
 
 #[derive(Clone, Debug, PartialEq)]
